@@ -124,6 +124,8 @@ CMN(a, r) == [a |-> "CreateMetaNode", c |-> [addr |-> a, tcp |-> a, rand |-> r]]
 CUS(n, adm) == [a |-> "CreateUser", c |-> [name |-> n, hash |-> "x", admin |-> adm]]
 CSU(db, rp, n) == [a |-> "CreateSubscription", c |-> [db |-> db, rp |-> rp, name |-> n, mode |-> "ALL", dests |-> "d1"]]
 CCQ(db, n, qq) == [a |-> "CreateContinuousQuery", c |-> [db |-> db, name |-> n, q |-> qq]]
+DSG(db, rp, id) == [a |-> "DeleteShardGroup", c |-> [db |-> db, rp |-> rp, id |-> id]]
+AGE == [a |-> "Age", c |-> [x |-> 0]]
 
 PrefixSeq(p) ==
   CASE p = "empty"  -> <<>>
@@ -133,20 +135,24 @@ PrefixSeq(p) ==
     [] p = "n3rf3"  -> <<CDN("h1"), CDN("h2"), CDN("h3"), CDB("a", "p", 3, 0, 2 * Hour), CRP("a", "q", 1, 0, Hour, FALSE), CSG("a", "p", 0), CSG("a", "q", 3)>>
     [] p = "trunc"  -> <<CDN("h1"), CDN("h2"), CDB("a", "p", 1, 0, 4 * Hour), CSG("a", "p", 0), TRN(3), CSG("a", "p", 4)>>
     [] p = "trunc0" -> <<CDN("h1"), CDN("h2"), CDB("a", "p", 1, 0, 2 * Hour), CSG("a", "p", 1), TRN(0)>>
+    [] p = "aged"   -> <<CDN("h1"), CDN("h2"), CDB("a", "p", 1, 0, 2 * Hour), CSG("a", "p", 0), CSG("a", "p", 4), DSG("a", "p", 1), DSG("a", "p", 2), AGE>>
+    [] p = "aged1"  -> <<CDN("h1"), CDN("h2"), CDB("a", "p", 2, 0, 2 * Hour), CSG("a", "p", 0), CSG("a", "p", 4), DSG("a", "p", 1), AGE, TRN(5)>>
     [] p = "meta"   -> <<CMN("h1", 7), CDN("h1"), CDN("h2"), CDB("a", "p", 2, 0, Hour)>>
     [] p = "acct"   -> <<CDB("a", "p", 1, 0, Hour), CDB("b", "p", 1, 0, Hour), CUS("a", TRUE), CUS("b", FALSE), CSU("a", "p", "a"), CCQ("a", "a", "q1")>>
 
-RECURSIVE RunPrefix(_, _, _, _)
-RunPrefix(d, h, i, p) ==
-  IF i > Len(p) THEN [md |-> d, hist |-> h]
-  ELSE LET c == Fix(p[i].a, p[i].c, i)
-           r == Dispatch(d, p[i].a, c)
-       IN RunPrefix(r.md, Append(h, Rec(p[i].a, c, i + 1, r)), i + 1, p)
+RECURSIVE RunPrefix(_, _, _, _, _)
+\* rx = raft index of the last applied entry ("Age" is not an entry)
+RunPrefix(d, h, i, p, rx) ==
+  IF i > Len(p) THEN [md |-> d, hist |-> h, ridx |-> rx]
+  ELSE LET c  == Fix(p[i].a, p[i].c, rx)
+           r  == Dispatch(d, p[i].a, c)
+           nx == IF p[i].a = "Age" THEN rx ELSE rx + 1
+       IN RunPrefix(r.md, Append(h, Rec(p[i].a, c, nx, r)), i + 1, p, nx)
 
 GInit ==
   \E p \in Prefixes :
-    LET r == RunPrefix(Empty, <<>>, 1, PrefixSeq(p)) IN
-    /\ md = r.md /\ hist = r.hist /\ ridx = Len(r.hist) + 1
+    LET r == RunPrefix(Empty, <<>>, 1, PrefixSeq(p), 1) IN
+    /\ md = r.md /\ hist = r.hist /\ ridx = r.ridx
 
 GSpec == GInit /\ [][GNext]_gvars
 
